@@ -194,9 +194,10 @@ def observe (r : RegState) : String :=
   " ".intercalate (syms.toArray.qsort (· < ·)).toList ++ " | " ++ " ".intercalate classes
 
 /-- `I:` a Python int, `L:` a float (its exact binary value), `P:` a standard
-library Decimal: the constructor turns each into the Decimal of that value -/
+library Decimal, `K:` the SI prefix with that factor (unit operands only): the constructor turns each into the Decimal of that value -/
 def stripKind (s : String) : String :=
-  if s.startsWith "I:" || s.startsWith "L:" || s.startsWith "P:" then (s.drop 2).toString else s
+  if s.startsWith "I:" || s.startsWith "L:" || s.startsWith "P:" || s.startsWith "K:" then
+    (s.drop 2).toString else s
 
 def parseAmount? (s0 : String) : Option Rat :=
   let s := stripKind s0
@@ -466,7 +467,7 @@ def stepReg (st : DState) (args : List String) : Option (DState × String) :=
     match Rounding.ofName? dflt with
     | none => some (st, bad)
     | some d =>
-      match parseQty? r d a, parseRat? k with
+      match parseQty? r d a, parseAmount? k with
       | some (.ok a), some k =>
         let v := match op with
           | "mul" => q.qtyScale d a k
@@ -478,6 +479,23 @@ def stepReg (st : DState) (args : List String) : Option (DState × String) :=
         some (st, showVRes r v)
       | some (.error e), some _ => some (st, "err " ++ e.name)
       | _, _ => some (st, bad)
+  | ["u_num", op, u, k, dflt] =>
+    -- a unit and a plain number (any kind; an SI prefix counts as its factor):
+    -- `unit * k` / `k * unit` is the quantity `k unit`, `unit / k` is `1/k unit`,
+    -- `k / unit` is `k * unit ** -1`
+    match Rounding.ofName? dflt, unitId? r u, parseAmount? k with
+    | some d, some u, some k =>
+      let v : Except Err Val := match op with
+        | "mul" | "rmul" => (r.mkQty d none k u).map Val.qty
+        | "div" => if k = 0 then .error .ZeroDivisionError
+                   else (r.mkQty d none (1 / k) u).map Val.qty
+        | _ => match q.powUnit d u (-1) with          -- "rdiv"
+          | .error e => .error e
+          | .ok (.qty x) => q.qtyScale d x k
+          | .ok (.num x) => .ok (.num (k * x))
+          | .ok v => .ok v
+      some (st, showVRes r v)
+    | _, _, _ => some (st, bad)
   | ["q_hash", a, b] =>
     match parseQty? r .ROUND_HALF_EVEN a, parseQty? r .ROUND_HALF_EVEN b with
     | some (.ok a), some (.ok b) =>
